@@ -434,10 +434,18 @@ def parse_mir(text):
             body = lines[i:j + 1]
             try:
                 f = parse_fn(body)
-                fns.setdefault(f.name, f)
+                key = f.name
             except Unsupported as e:
                 m = FN_RE.match(body[0])
-                fns.setdefault(m.group(1) if m else body[0], e)
+                f = e
+                key = m.group(1) if m else body[0]
+            if key in fns:
+                # several items expanded from one macro span share a symbol: keep all, in order of appearance, as name#1, name#2 ..
+                k = 1
+                while f'{key}#{k}' in fns:
+                    k += 1
+                key = f'{key}#{k}'
+            fns[key] = f
             i = j + 1
         else:
             i += 1
